@@ -8,7 +8,7 @@ parser is in chunk-state `s` (with `n` bytes of the current chunk outstanding):
 
     chunked-body = *( size-line CRLF chunk-data CRLF ) last-size-line CRLF *( trailer-line CRLF ) CRLF
 
-where a size line is `1*HEXDIG [ ";" ext ]` (no LF in the extension) containing no CRLF, the
+where a size line is `1*HEXDIG [ ";" ext ]` (no LF and no CR in the extension), the
 chunk data has exactly the announced length, and trailer lines contain no CRLF.
 `chunked_body_is_strict`: whenever the strict parser completes a chunked body in one call, the
 bytes it consumed are such a reading, what it hands back is exactly the rest, and the body bytes
@@ -21,7 +21,7 @@ open Aio
 def SizeLine (line : Bytes) (n : Nat) : Prop :=
   findCRLF line = none ∧
   ∃ digits ext, line = digits ++ ext ∧ digits ≠ [] ∧ (∀ b ∈ digits, isHexB b = true) ∧
-    ofHex digits = some n ∧ (ext = [] ∨ (ext.head? = some 59 ∧ (10 : UInt8) ∉ ext))
+    ofHex digits = some n ∧ (ext = [] ∨ (ext.head? = some 59 ∧ (10 : UInt8) ∉ ext ∧ (13 : UInt8) ∉ ext))
 
 /-- `Body s n input rest data trailers` -/
 inductive Body : CState → Nat → Bytes → Bytes → Bytes → List Bytes → Prop
